@@ -40,6 +40,7 @@ theorem TraitType.induct' {P : TraitType → Prop} {Q : List TraitType → Prop}
   | .instance .. => atomic _ rfl rfl | .type_ .. => atomic _ rfl rfl | .this _ => atomic _ rfl rfl
   | .callable _ => atomic _ rfl rfl | .module => atomic _ rfl rfl | .noneTrait => atomic _ rfl rfl
   | .string .. => atomic _ rfl rfl | .prefixList _ => atomic _ rfl rfl | .prefixMap .. => atomic _ rfl rfl
+  | .array .. => atomic _ rfl rfl
   | .coerceH _ => atomic _ rfl rfl | .castH _ => atomic _ rfl rfl | .instanceH .. => atomic _ rfl rfl
   | .functionH _ => atomic _ rfl rfl | .enumH _ => atomic _ rfl rfl | .mapH .. => atomic _ rfl rfl
 theorem TraitType.inductL' {P : TraitType → Prop} {Q : List TraitType → Prop}
